@@ -82,7 +82,10 @@ def gen_files(ctx, n_files):
     scratch = B.Scratch(ctx.build)
     out = []
     forced = [dict(n_slices=1, kind="Cell"), dict(n_slices=2, kind="CumulativeCell"),
-              dict(n_slices=2, kind="IncrementalCell"), dict(n_slices=3), dict(n_slices=4)]
+              dict(n_slices=2, kind="IncrementalCell"), dict(n_slices=3), dict(n_slices=4), {}] + \
+             [dict(n_slices=2, sibling=v) for v in B.SIBLING_VARIANTS] + \
+             [dict(n_slices=2, force=("nested",)), dict(n_slices=2, force=("semi", "late")),
+              dict(n_slices=3, kind="Cell", force=("farspan",)), dict(n_slices=2, kind="CumulativeCell", force=("farspan",))]   # slot 5 = calendar file
     cap = 1800 if ctx.quick else 2600
     tries = 0
     while len(out) < n_files and tries < n_files * 40:
